@@ -347,11 +347,11 @@ func Ambiguous(a, b *Model) string {
 			}
 		}
 		// checks are matched by expression when one side has no name: a named and an unnamed check
-		// with the same expression on the two sides, or the same name with another identity, is a rename.
+		// with the same expression on the two sides is a rename.
 		for _, k := range t.Checks {
 			for _, l := range u.Checks {
-				if k.Expr == l.Expr && k.CheckKey() != l.CheckKey() && (k.Name == "" || l.Name == "") {
-					return "check with the same expression under another identity"
+				if k.Expr == l.Expr && (k.Name == "") != (l.Name == "") {
+					return "check with the same expression named on one side only"
 				}
 			}
 		}
